@@ -114,6 +114,11 @@ class Program:
         for m in self.modules.values():
             for c in m.classes.values():
                 self._resolve_bases(c)
+        # undo behaviour-preserving presentation choices (renamed private
+        # attributes, explicit property(), private record types, private
+        # numeric constants) - see dlint/normalise.py
+        from . import normalise
+        self.normalised = normalise.run(self)
 
     # ------------------------------------------------------------------
     def _scan(self, m):
@@ -196,7 +201,7 @@ class Program:
         m = self.modules[modname]
         out = {}
         for base in m.star_imports:
-            for k, v in self.module_names(base, _seen).items():
+            for k, v in self.module_names(base, set(_seen)).items():
                 if not k.startswith('_'):
                     out[k] = v
         for k, v in m.imports.items():
@@ -248,6 +253,20 @@ class Program:
             else:
                 return None
         return cur
+
+    def is_sentinel(self, module, name):
+        """`name` is a module-level `NAME = object()` assigned once: a unique
+        object, different from every value the program computes."""
+        hits = [st for st in module.tree.body if isinstance(st, ast.Assign)
+                and any(isinstance(t, ast.Name) and t.id == name
+                        for t in st.targets)]
+        if len(hits) != 1:
+            return False
+        v = hits[0].value
+        stores = sum(1 for n in ast.walk(module.tree) if isinstance(
+            n, ast.Name) and n.id == name and isinstance(n.ctx, ast.Store))
+        return stores == 1 and isinstance(v, ast.Call) and dotted(
+            v.func) == 'object' and not v.args and not v.keywords
 
     def lookup_class(self, module, dotted_name):
         r = self.lookup(module, dotted_name)
